@@ -62,9 +62,34 @@ const (
 	settle = 60 * time.Millisecond
 )
 
-type countEnc struct{ n atomic.Int64 }
+type countEnc struct {
+	n atomic.Int64
+	// gate (scenario "inflight"): once armed, an Encode waits until the worker has returned (or 1 s): a write that is
+	// still to come when the worker returns is then seen AFTER the return, whatever the scheduling
+	armed    atomic.Bool
+	returned atomic.Bool
+	after    atomic.Int64
+	fail     atomic.Bool // every write fails
+}
 
-func (e *countEnc) Encode(any) error { e.n.Add(1); return nil }
+var errWrite = errors.New("verif: injected write failure")
+
+func (e *countEnc) Encode(any) error {
+	if e.fail.Load() {
+		return errWrite
+	}
+	if e.armed.Load() {
+		dl := time.Now().Add(time.Second)
+		for !e.returned.Load() && time.Now().Before(dl) {
+			time.Sleep(200 * time.Microsecond)
+		}
+		if e.returned.Load() {
+			e.after.Add(1)
+		}
+	}
+	e.n.Add(1)
+	return nil
+}
 
 func auditLine(seq int) string {
 	return fmt.Sprintf("type=USER_START msg=audit(1668460768.%03d:%d): pid=25007 uid=0 auid=1000 ses=499 "+
@@ -130,9 +155,16 @@ func runA(dir string, sc Scenario, rec *Rec) {
 	var consumed atomic.Int64
 	progress := func() int64 { return consumed.Load() + int64(len(ch)) }
 	switch sc.State {
-	case "opening":
+	case "opening", "openingunlinked":
 		time.Sleep(30 * time.Millisecond)
 		rec.Reached = len(done) == 0
+		if sc.State == "openingunlinked" {
+			// the pipe's path goes away (and, for odd capacities, comes back as a new FIFO) while the worker waits
+			os.Remove(path)
+			if sc.Cap%2 == 1 {
+				must(syscall.Mkfifo(path, 0o600))
+			}
+		}
 		finish(rec, cancel, done, progress)
 		// unblock the opener goroutine left behind
 		if w, err := os.OpenFile(path, os.O_WRONLY|syscall.O_NONBLOCK, 0); err == nil {
@@ -210,9 +242,15 @@ func runS(dir string, sc Scenario, rec *Rec) {
 	done := make(chan error, 1)
 	go func() { done <- ing.Ingest(ctx) }()
 	progress := func() int64 { return enc.n.Load() }
-	if sc.State == "opening" {
+	if sc.State == "opening" || sc.State == "openingunlinked" {
 		time.Sleep(30 * time.Millisecond)
 		rec.Reached = len(done) == 0
+		if sc.State == "openingunlinked" {
+			os.Remove(path)
+			if sc.Cap%2 == 1 {
+				must(syscall.Mkfifo(path, 0o600))
+			}
+		}
 		finish(rec, cancel, done, progress)
 		if w, err := os.OpenFile(path, os.O_WRONLY|syscall.O_NONBLOCK, 0); err == nil {
 			w.Close()
@@ -230,6 +268,24 @@ func runS(dir string, sc Scenario, rec *Rec) {
 		w.WriteString("4242 Accepted password for bob from 10.0.0.1 po")
 		rec.Reached = waitFor(time.Second, func() bool { return drained(w) }) && len(done) == 0
 		time.Sleep(10 * time.Millisecond)
+	case "writefail":
+		// the event of an accepted login cannot be written: the WORKER (ingester chain included) ends with that error
+		enc.fail.Store(true)
+		w.WriteString("4242 Accepted password for bob from 10.0.0.1 port 22 ssh2\n")
+		rec.Reached = true
+		select {
+		case err := <-done:
+			rec.Returned = true
+			rec.ErrCtx = err != nil
+			if err != nil {
+				rec.Err = err.Error()
+			}
+			rec.Login = "werr:" + map[bool]string{true: "wrapped", false: "lost"}[errors.Is(err, errWrite)]
+		case <-time.After(bound):
+			rec.Ms = int(bound.Milliseconds())
+			rec.Login = "werr:lost"
+		}
+		return
 	case "sending", "sendinglate":
 		// one accepted-login variant per channel-capacity value of the scenario (0..3)
 		w.WriteString([]string{
@@ -334,6 +390,38 @@ func runP(sc Scenario, rec *Rec) {
 			}()
 		}
 		rec.Reached = waitFor(2*time.Second, func() bool { return enc.n.Load() > 100 }) && len(done) == 0
+	case "inflight":
+		// a correlated session with an event still being assembled (SYSCALL without its PROCTITLE) when the context
+		// is cancelled: what Read flushes on its way out is written BEFORE it returns
+		evt := auditevent.NewAuditEvent("UserLogin", auditevent.EventSource{Type: "IP", Value: "10.0.0.1"}, "succeeded",
+			map[string]string{"loggedAs": "u", "userID": "x", "pid": "25007"}, "sshd")
+		select {
+		case logins <- common.RemoteUserLogin{Source: evt, PID: 25007, CredUserID: "x"}:
+		case <-time.After(time.Second):
+		}
+		audits <- "type=LOGIN msg=audit(1668460768.100:29999): pid=25007 uid=0 old-auid=4294967295 auid=1000 tty=(none) old-ses=4294967295 ses=499 res=1"
+		rec.Reached = waitFor(time.Second, func() bool { return enc.n.Load() == 1 })
+		audits <- "type=SYSCALL msg=audit(1668460769.100:30100): arch=c000003e syscall=59 success=yes exit=0 a0=1 a1=2 a2=3 a3=4 items=0 ppid=1 pid=25010 auid=1000 uid=1000 gid=1000 euid=1000 suid=1000 fsuid=1000 egid=1000 sgid=1000 fsgid=1000 tty=pts3 ses=499 comm=\"x\" exe=\"/bin/x\" key=\"k\""
+		time.Sleep(40 * time.Millisecond)
+		rec.Reached = rec.Reached && len(done) == 0 && enc.n.Load() == 1
+		enc.armed.Store(true)
+		before := time.Now()
+		cancel()
+		select {
+		case err := <-done:
+			enc.returned.Store(true)
+			rec.Returned = true
+			rec.Ms = int(time.Since(before).Milliseconds())
+			rec.ErrCtx = err != nil
+			if err != nil {
+				rec.Err = err.Error()
+			}
+		case <-time.After(bound):
+			rec.Ms = int(bound.Milliseconds())
+		}
+		time.Sleep(1200 * time.Millisecond)
+		rec.Late = int(enc.after.Load())
+		return
 	}
 	finish(rec, cancel, done, progress)
 	if rec.Returned && !errors.Is(context.Canceled, context.Canceled) {
